@@ -652,7 +652,9 @@ class Polyface3D(Base2DIn3D):
             origin: A Point3D representing the origin from which to reflect.
         """
         _verts = tuple(pt.reflect(normal, origin) for pt in self.vertices)
-        _new_pface = Polyface3D(_verts, self.face_indices, self.edge_information)
+        _f_indices = tuple(tuple(tuple(reversed(loop)) for loop in face)
+                           for face in self.face_indices)  # keep the right-hand rule
+        _new_pface = Polyface3D(_verts, _f_indices, self.edge_information)
         if self._faces is not None:
             _new_pface._faces = tuple(face.reflect(normal, origin)
                                       for face in self._faces)
